@@ -693,7 +693,7 @@ class DAG(BaseDAG[P, RVDAG]):
         Raises:
             TawaziUsageError: kwargs are passed
         """
-        description_context = node.exec_nodes_lock.locked()
+        description_context = node.is_describing()
         if kwargs:
             # is_active is only allowed when describing a SubDAG
             if not description_context or set(kwargs.keys()) != {ARG_NAME_ACTIVATE}:
